@@ -99,9 +99,19 @@ func (c *Condition) Operator() Operator { return c.operator }
 // Value returns the value being compared against
 func (c *Condition) Value() string { return c.value }
 
+// numbers with exponents beyond this aren't accepted as the cost of comparing with them grows with the exponent
+const maxNumberExponent = 1000
+
 // ValueAsNumber returns the value as a number if possible, or an error if not
 func (c *Condition) ValueAsNumber() (decimal.Decimal, error) {
-	return decimal.NewFromString(c.value)
+	d, err := decimal.NewFromString(c.value)
+	if err != nil {
+		return d, err
+	}
+	if d.Exponent() > maxNumberExponent || d.Exponent() < -maxNumberExponent {
+		return d, fmt.Errorf("exponent %d is out of range", d.Exponent())
+	}
+	return d, nil
 }
 
 // ValueAsDate returns the value as a date if possible, or an error if not
